@@ -106,7 +106,11 @@ func (x *Exec) loopHeader(st *State, fr *Frame, b *ssa.BasicBlock, prev *ssa.Bas
 				s.schemas = append(s.schemas, &schema{vars: cl.vars, expr: cl.expr, env: snapEnv, st: s.fork(), text: fmt.Sprintf("inv%d.%d@%d:%s", l.ordinal, k, x.schemaCtr, cl.text)})
 				continue
 			}
+			if !assume && fr.ct != nil {
+				x.witnessTuples = fr.ct.witnesses[l.ordinal]
+			}
 			t := x.evalClause(s, env, cl)
+			x.witnessTuples = nil
 			if assume {
 				s.assume(t)
 			} else {
